@@ -40,6 +40,7 @@ KINDS = ['fixnum', 'float', 'bigint', 'rational', 'char', 'bool', 'nil', 'void',
          'list1', 'list2', 'improper', 'lambda', 'continuation']
 KINDS_SMALL = ['fixnum', 'float', 'char', 'string1', 'vector2', 'list2', 'nil', 'rational']
 FIXNUM_PALETTE = [0, 1, -1, 2, -(1 << 63), 1 << 62, 1 << 31, -(1 << 31), 1 << 32, 16]      # powers of two: divisions stay shifts (2^63-1 as a divisor is not decided in time)
+RADIX_PALETTE = [0, 1, 3, 36, 37, (1 << 32) + 10]
 FLOAT_PALETTE = [0.0, -0.0, 1.5, -2.0, float('nan'), float('inf'), float('-inf'), 9223372036854775808.0, 1e308, 5e-324]
 BIG_PALETTE = [0, 5, -1, 1 << 63, -(1 << 64), 1 << 64]
 CHAR_PALETTE = [0xE9, 0xDF, 0x3A3, 0x130, 0x1C5, 0xFB01, 0x3042, 0x1F600]
@@ -48,8 +49,9 @@ RATIONAL_PAIRS = [(-(1 << 31), 1), ((1 << 31) - 1, 2), (1, 3), (-3, 4), (1, (1 <
 
 class G:
     """argument generator on a fabricated VM"""
-    def __init__(s, prog, fab, it, sym_float=True):
+    def __init__(s, prog, fab, it, sym_float=True, fix_palette=None):
         s.prog, s.f, s.it = prog, fab, it
+        s.fix_palette = fix_palette or FIXNUM_PALETTE
         s.A = B.Args(fab, it)
         s.desc = []
         s.sym_float = sym_float
@@ -60,7 +62,7 @@ class G:
             if len(s.desc) == 0:
                 v = z3.BitVec(name, 64)                              # first argument: any i64
             else:
-                v = FIXNUM_PALETTE[it.choose(len(FIXNUM_PALETTE))]    # later arguments: boundary values (symbolic x symbolic products are not decided in time)
+                v = s.fix_palette[it.choose(len(s.fix_palette))]    # later arguments: boundary values (symbolic x symbolic products are not decided in time)
             A.fixnum(v); s.desc.append(('num', ('fix', v)))
         elif kind == 'float':
             v = z3.FP(name, z3.Float64()) if (len(s.desc) == 0 and s.sym_float) else FLOAT_PALETTE[it.choose(len(FLOAT_PALETTE))]
@@ -136,12 +138,12 @@ def scheme_number(rep):
     return '(string->number "%r")' % x
 
 
-def make_builtin_harness(prog, table, proc, kinds, argc, sym_float=True):
+def make_builtin_harness(prog, table, proc, kinds, argc, sym_float=True, fix_palette=None):
     fab = Fab(prog)
     EDISP = prog.resolve_crate('<Error as Display>::fmt') or prog.resolve_crate('<error::Error as Display>::fmt')
 
     def harness(it):
-        g = G(prog, fab, it, sym_float)
+        g = G(prog, fab, it, sym_float, fix_palette)
         it.ghost['g'] = g; it.ghost['proc'] = proc
         ks = []
         for i in range(argc):
@@ -243,6 +245,16 @@ def plan(prog, table, tier):
             # a symbolic double against boundary fixnums costs seconds per query (float -> int conversion circuits; number->string with a
             # symbolic double and a radix took 33 min and still met an unsupported construct): with two or more arguments doubles come from the palette
             jobs.append(('builtin %s argc=%d' % (p, argc), make_builtin_harness(prog, table, p, kinds, argc, sym_float=(argc <= 1)), on_panic))
+    # the procedures that take a range as third and fourth argument, at arity 4 also in the quick tier (start / end around the length)
+    if quick:
+        for p in ('string-fill!', 'vector-fill!', 'string-copy!', 'vector-copy!', 'string-copy', 'substring', 'vector-copy', 'string->list', 'vector->list'):
+            if p in procs and (p, 4) not in EXCLUDED_ARITY:
+                jobs.append(('builtin %s argc=4' % p, make_builtin_harness(prog, table, p, ['fixnum', 'string1', 'vector2', 'char'], 4, sym_float=False), on_panic))
+    # radix arguments: the boundary values of a radix (0, 1, the largest legal 36, 37, a value that truncates to 10 in 32 bits)
+    for p in ('string->number', 'number->string'):
+        if p in procs:
+            jobs.append(('builtin %s radix palette' % p, make_builtin_harness(prog, table, p, ['string1', 'fixnum'] if p == 'string->number' else ['fixnum'], 2, sym_float=False,
+                                                                                fix_palette=RADIX_PALETTE), on_panic))
     return jobs
 
 
